@@ -2445,11 +2445,7 @@ def convert_exists_int_formula_to_nnf(formula: Formula, negate: bool) -> Maybe[F
     ):
         return Nothing
 
-    inner_formula = (
-        convert_to_nnf(formula.inner_formula, negate)
-        if negate
-        else formula.inner_formula
-    )
+    inner_formula = convert_to_nnf(formula.inner_formula, negate)
 
     if (isinstance(formula, ForallIntFormula) and negate) or (
         isinstance(formula, ExistsIntFormula) and not negate
@@ -2463,11 +2459,7 @@ def convert_quantified_formula_to_nnf(formula: Formula, negate: bool) -> Maybe[F
     if not isinstance(formula, QuantifiedFormula):
         return Nothing
 
-    inner_formula = (
-        convert_to_nnf(formula.inner_formula, negate)
-        if negate
-        else formula.inner_formula
-    )
+    inner_formula = convert_to_nnf(formula.inner_formula, negate)
     already_matched: Set[int] = (
         formula.already_matched if isinstance(formula, ForallFormula) else set()
     )
